@@ -289,6 +289,12 @@ type Prop[C any] struct {
 	PreWrite bool          // write every case before running it (race-detector attribution)
 	// Sweep, if set, enumerates deterministic cases (boundary grids) before the random search.
 	Sweep func(tier string, shard, shards int, emit func(C))
+	// Before / After bracket the whole run of a shard: Before is called ahead of the first case and
+	// its result handed to After once the last case has passed. After reports a violation (and a
+	// case to put into the replay file) if the library answers a fixed set of questions differently
+	// now - i.e. if something the run did has left a trace in process-wide state.
+	Before func() interface{}
+	After  func(before interface{}) (*Violation, C)
 }
 
 func (p Prop[C]) limit() time.Duration {
@@ -338,6 +344,19 @@ func Run[C any](t *testing.T, p Prop[C]) {
 	defer func() { r.write(p.Rule) }()
 	_ = os.Remove(latestPath(p.ID))
 	_ = os.Remove(firstFailPath(p.ID))
+	var bracket interface{}
+	if p.Before != nil {
+		bracket = p.Before()
+	}
+	defer func() {
+		if p.After == nil || t.Failed() {
+			return
+		}
+		if v, c := p.After(bracket); v != nil {
+			p.fail(c, r, v)
+			t.Errorf("VIOLATION-DETAIL property=%s (whole-run bracket)\n%s", p.ID, v.Msg)
+		}
+	}()
 
 	if shard() == 0 {
 		dir := filepath.Join(envOr("VERIF_CORPUS", filepath.Join(verifRoot(), "corpus")), p.ID)
